@@ -612,7 +612,6 @@ func ruleC05BuildLimitOrder(c *Ctx) {
 	c.Check(ok, "c05.build", c.P.funcKey(bo)+"/direction", c.P.Pos(bo.Pos()), fmt.Sprintf("%d stores: Value = (Direction == AscOrder)", n), why)
 }
 
-
 // lessTableLoopForm: the comparator written as a loop over the keys. Per iteration (for every key position): NULL
 // first => not less; NULL second => less; res = compare.Compare(first, second) != 0 => less iff res<0 ascending /
 // res>0 descending; res == 0 => next key. After the last key: not less. Equivalent to the recursive table.
